@@ -273,10 +273,12 @@ def tmpl_forward_jump(rng):
 
         def filler():
             return [(1, 1, rng.choice([1, 2]), rng.choice([None, None, 13, ('?', 13, None)]))] if rng.random() < 0.3 else []
-        cond = lambda lab: rng.choice([('?', lab, None), ('?', lab, None), ('?', None, lab), ('!', lab, None)])
+        # (also with the label heart under `!` in the LEFT operand of `?`: [[lab]![_]]?[_])
+        cond = lambda lab: rng.choice([('?', lab, None), ('?', lab, None), ('?', None, lab), ('!', lab, None),
+                                       ('?', ('!', lab, None), None), ('?', ('!', None, lab), None), ('?', ('!', lab, lab), None)])
         prog += [(1, 1, d2, lab2)] + filler()
         prog += [(1, 1, d1, cond(lab1))] + filler()
-        prog += [(1, 1, d1, lab1)] + filler()
+        prog += [(1, 1, d1, rng.choice([lab1, lab1, ('?', ('!', lab1, lab1), lab1), ('!', lab1, lab1)]))] + filler()
         prog += [(1, 1, d2, cond(lab2))] + filler()
         if rng.random() < 0.4:
             prog += [(1, 1, d1, cond(lab1))]
@@ -728,6 +730,31 @@ def tmpl_label_table(rng):
     return prog
 
 
+def tmpl_loop_carried(rng):
+    """A count-down loop whose body looks at a value PARKED ON ANOTHER STACK by the previous round: the stack is selected,
+    its top is printed (as decimal text), the counter stack is selected again, and only THEN - textually after the last
+    command that selects that stack - a new value is sent there for the next round.  An analysis of the program text that
+    ignores the back edge believes the parked value is never looked at."""
+    t = rng.choice([4, 5, 7, 8, 33])
+    junk = rng.choice([x for x in (6, 9, 12) if x != t])
+    lab = rng.choice([2, 3, 4, 5])
+    n = 3 * rng.randint(2, 5) + rng.choice([0, 1, 2])
+    prog = []
+    if rng.random() < 0.7:
+        prog += [(0, 1, rng.choice([7, 8, 9]), None), (1, 1, t, None)]                 # something parked before the loop
+    prog += push_value(n)
+    prog += [(0, 1, 3, lab), (3, 1, junk, None), (1, 2, 3, None)]                        # counter -= 3 (junk gets the -3)
+    prog += [(5, 1, t, None), (1, 1, junk, None)]                                        # select t; drop the copy of the counter
+    prog += [(3, 1, rng.choice([1, 1, 2]), None)]                                        # look at the parked value (prints it)
+    prog += [(5, 1, 3, None), (1, 1, junk, None)]                                        # back to the counter stack; drop the copy
+    for _ in range(rng.randint(1, 2)):
+        prog += [(0, 1, rng.choice([1, 2, 4, 5, 6]), None), (rng.choice([1, 1, 2]), 1, t, None)]      # park the next value AFTER the last select of t
+    prog += [(5, 1, 3, ('?', None, lab))]
+    if rng.random() < 0.5:
+        prog += [(5, 1, t, None), (3, 1, 1, None), (3, 1, 1, None)]
+    return prog
+
+
 SKIP_STDINS = ['\nabcdef\n', '\n\n\nxy', '  ab\n', 'aaab\nc', '', '\n', 'a\n\n\nb\n', '\r\n\r\nxy\n', ' \n \nq', '한\n\n글\n']
 
 
@@ -909,7 +936,8 @@ def tmpl_two_labels(rng):
         pr = rng.choice([x for x in (4, 5, 6, 7) if x != c])
         k1, k2, kl = rng.sample([2, 3, 4, 5, 6, 7, 8, 9, 10, 11, 12], 3)
         op = rng.choice(['?', '?', '!'])
-        xa = rng.choice([(op, k1, k2), (op, k1, ('?', k2, None)), (op, ('!', k1, k1), k2), ('?', k1, ('!', None, k2))])
+        xa = rng.choice([(op, k1, k2), (op, k1, ('?', k2, None)), ('?', ('!', k1, k1), k2), ('?', k1, ('!', None, k2)), ('?', ('!', k1, None), k2),
+                         ('?', ('!', None, k1), ('?', k2, None))])
         prog = [(0, 1, rng.choice([0, 1, 2, c - 1, c, c + 1, 9, pr - 1, pr]), None) for _ in range(rng.randint(6, 20))]
         prog.append((1, 1, pr, kl))                               # loop label
         prog += [(0, 1, 66, None), (1, 1, rng.choice([1, 2]), None)] if rng.random() < 0.3 else []
@@ -1081,6 +1109,7 @@ INPUT_TEMPLATES = {
     'label_table': lambda rng, ai: tmpl_label_table(rng),
     'two_labels': lambda rng, ai: tmpl_two_labels(rng),
     'zoo': lambda rng, ai: tmpl_zoo(rng, ai),
+    'loop_carried': lambda rng, ai: tmpl_loop_carried(rng),
     'skip_loop': lambda rng, ai: tmpl_skip_loop(rng) if ai else tmpl_zoo(rng, ai),
     'far_stacks': lambda rng, ai: tmpl_far_stacks(rng),
     'big_fraction_output': lambda rng, ai: tmpl_big_fraction_output(rng),
